@@ -305,7 +305,12 @@ def clauses(tier, seed):
       Clause('numeric:Gram/round-trip/integral/non-influence on complete bases', 'numeric', fn_t, run_gram, replay=replay_gram, group='jax-b', heavy=True),
       Clause('numeric:batch axes carried through', 'numeric', fn_t, run_batch_axes, group='jax-c', heavy=True),
       Clause('enum:mask index predicates', 'enum', [SH + 'RealSphericalHarmonics.mask', SH + 'FastSphericalHarmonics.mask'], run_masks, group='jax-c', heavy=True),
-  ]
+  ] + _layout_clauses()
+
+
+def _layout_clauses():
+  from contracts import layout_contracts
+  return [c for c in layout_contracts.clauses() if 'same degrees of freedom' not in c.name]
 
 
 MANIFEST = {
